@@ -15,6 +15,7 @@ Definition X (l : rid) : ssig := mkS l None.                              (* byt
 Definition V (h : hash) (l : list ssig) : event := EVote (mkVote h l).
 Definition P (h : hash) (v : view) : event := EPropose (mkB h v).
 Definition H (h : hash) (v : view) : event := EHigh (mkB h v).
+Definition TC (v : view) : event := ETC v.
 
 Definition real_eqb (a b : option (rid * hash)) : bool :=
   option_eqb (fun x y => N.eqb (fst x) (fst y) && N.eqb (snd x) (snd y)) a b.
